@@ -109,19 +109,26 @@ def spelling_case():
             doc = pre + s + post
             if crlf: doc = doc.replace(b"\n", b"\r\n")
             return html(doc, ext).replace(b"\r", b"")
-        canon_label, canon = spellings[0]; base = render(canon); canon_axes = axes_of(canon_label)
+        canon_label, canon = spellings[0]; base = render(canon); canon_axes = axes_of(canon_label); by_label = {l: t for l, t in spellings}
         v = []; failing_single = set(); judged = 0
         order = sorted(spellings[1:], key=lambda s: sum(a != b for a, b in zip(axes_of(s[0]), canon_axes)))
         for label, s in order:
             dev = [a for a, b in zip(axes_of(label), canon_axes) if a != b]
-            if any(d in failing_single for d in dev) and len(dev) > 1: continue       # already explained by a simpler deviation
+            ref = base; ref_s = canon
+            if any(d in failing_single for d in dev) and len(dev) > 1:
+                # part of this deviation already fails on its own: judge the REST of it against the spelling that deviates only in the failing axes
+                # (so that a recorded finding about one axis does not hide a different defect that needs it as a companion)
+                keep = [a if a in failing_single else b for a, b in zip(axes_of(label), canon_axes)]
+                ref_s = by_label.get(",".join(keep))
+                if ref_s is None or keep == axes_of(label): continue
+                ref = render(ref_s); dev = [d for d in dev if d not in failing_single]
             judged += 1
             out = render(s)
-            if out != base:
+            if out != ref:
                 if len(dev) == 1: failing_single.add(dev[0])
                 sig = "spelling:%s:%s" % (re.sub(r"\d+$", "", kname) if kname.startswith("atx") else kname, "+".join(dev))
-                v.append((sig, "spelling %r renders differently from the canonical spelling %r" % (pre + s + post, pre + canon + post),
-                          dict(src=(pre + s + post).decode("latin-1"), canonical=(pre + canon + post).decode("latin-1"), mode=mname, crlf=crlf, got=out.decode("utf-8", "replace"), expected=base.decode("utf-8", "replace"))))
+                v.append((sig, "spelling %r renders differently from the reference spelling %r" % (pre + s + post, pre + ref_s + post),
+                          dict(src=(pre + s + post).decode("latin-1"), canonical=(pre + ref_s + post).decode("latin-1"), mode=mname, crlf=crlf, got=out.decode("utf-8", "replace"), expected=ref.decode("utf-8", "replace"))))
         if crlf:
             lf = html(pre + canon + post, ext)
             if lf != base:
